@@ -152,3 +152,56 @@ func Diff(ref Model, got map[string]ast.Atom) (missing, extra []string) {
 	sort.Strings(extra)
 	return
 }
+
+// DiffListsAsSets is Diff where list-valued arguments of the predicates selected by asSet are read as sets
+// (fn:collect_distinct promises a set, not an element order).
+func DiffListsAsSets(ref Model, got map[string]ast.Atom, asSet func(pred string) bool) (missing, extra []string) {
+	norm := func(pred string, args []ast.Constant) string {
+		out := make([]ast.Constant, len(args))
+		for i, a := range args {
+			out[i] = a
+			if asSet(pred) && a.Type == ast.ListShape {
+				var elems []ast.Constant
+				a.ListValues(func(e ast.Constant) error { elems = append(elems, e); return nil }, func() error { return nil })
+				sort.Slice(elems, func(x, y int) bool { return val.KeyOf(elems[x]) < val.KeyOf(elems[y]) })
+				out[i] = ast.List(elems)
+			}
+		}
+		return Fact{Pred: pred, Args: out}.Key()
+	}
+	want := map[string]bool{}
+	for _, f := range ref {
+		want[norm(f.Pred, f.Args)] = true
+	}
+	have := map[string]bool{}
+	for k, a := range got {
+		args := make([]ast.Constant, len(a.Args))
+		ok := true
+		for i, x := range a.Args {
+			c, isConst := x.(ast.Constant)
+			if !isConst {
+				ok = false
+				break
+			}
+			args[i] = c
+		}
+		if !ok {
+			have[k] = true
+			continue
+		}
+		have[norm(a.Predicate.Symbol, args)] = true
+	}
+	for k := range want {
+		if !have[k] {
+			missing = append(missing, k)
+		}
+	}
+	for k := range have {
+		if !want[k] {
+			extra = append(extra, k)
+		}
+	}
+	sort.Strings(missing)
+	sort.Strings(extra)
+	return
+}
